@@ -15,7 +15,7 @@ RULE = (
     "Hypothesis draws runs over all objective families x boxes (biased narrow, every bound kind incl. lb==ub) x feasible starts on faces/vertices x "
     "{callable, None, 2-point, 3-point, cs} x maxcor/maxls/maxiter 0..60/maxfun 1..400 (problems also in other units, with args / per-variable steps / line-search options), plus re-entrant objectives that run an inner minimisation with another box; every argument of fun/jac (stencil points included), every callback "
     "iterate and the result are tested with exact comparisons. non-trivial = the run did >=1 iteration and some logged point has a component exactly on a finite bound; "
-    "distinct = distinct run spec"
+    "distinct = distinct run spec; a fifth of the problems are also translated far from the origin (x -> x+T, |T| = 1e2..1e6: bounds and iterates of large magnitude compared with the box)"
 )
 ASSUMPTIONS = [
     "the harness's closures see every point the solver hands to the user's callables",
@@ -120,7 +120,7 @@ def nested_strategy(draw):
 
 
 def strategy():
-    return run_spec(families=ALL_FAMILIES, n_max=10, jac_modes=JAC_MODES + ("callable",), maxiter=(0, 60), maxfun=(1, 400), narrow=True, units=True, extras=True,
+    return run_spec(families=ALL_FAMILIES, n_max=10, jac_modes=JAC_MODES + ("callable",), maxiter=(0, 60), maxfun=(1, 400), narrow=True, units=True, shift=True, extras=True,
                     ftols=(0.0, 1e-12, 1e-5), gtols=(1e-8, 1e-6, 1e-5))
 
 
